@@ -45,7 +45,7 @@ CHECKS = {
              "tied to the real rewriter, CPython and the runtime by K-sem. C02_fun_stream (model/FragFun.v): with functions, calls and return the subscribed events are those of the "
              "reference fref_module - call, argument, function-body and return events in evaluation order, after_function_execution once per invocation however it ends (K-fun, 16 per run); C02_prog_stream (model/FragProg.v): loops and functions together, a return from "
              "inside a loop passes after_while_loop_iter and then after_function_execution (K-prog, 24 per run).",
-        note="Trusted: Coq kernel + vm_compute; ref_instr.py as the definition of what each event means (59 events with an unambiguous source meaning); astexport; the laws of EraseSound.v "
+        note="Trusted: Coq kernel + vm_compute; ref_instr.py as the definition of what each event means (67 events with an unambiguous source meaning: every AST event except before_lambda_body and the import events); astexport; the laws of EraseSound.v "
              "(Section hypotheses). Choices: bare except = except BaseException with no source node; before_subscript_* fire after the subscript expression.",
         ref="DESIGN.md section 7 C02"),
     "C03": dict(
